@@ -77,29 +77,49 @@ def confirm(src, sid, prop, run_suite=True):
     return res
 
 
-def detect(sid, checks, tier="quick"):
+def detect(sid, checks, tier="quick", inplace=False):
+    """inplace=True: the official procedure (git -C /repo apply; run; git checkout).
+    inplace=False: the same checks against a scratch worktree of /repo HEAD with the patch
+    applied (VERIF_REPO), so that several detections can run side by side."""
     d = os.path.join(SEEDED, sid)
     meta = json.load(open(os.path.join(d, "meta.json")))
     checks = checks or [meta["breaks"]]
-    st = sh(["git", "-C", "/repo", "status", "--porcelain", "--untracked-files=no"]).stdout.strip()
-    if st:
-        raise SystemExit("/repo is not clean: " + st)
-    ap = sh(["git", "-C", "/repo", "apply", os.path.join(d, "patch.diff")])
+    env = dict(os.environ, VERIF_CACHE="1")
+    wt = None
+    if inplace:
+        st = sh(["git", "-C", "/repo", "status", "--porcelain", "--untracked-files=no"]).stdout.strip()
+        if st:
+            raise SystemExit("/repo is not clean: " + st)
+        target = "/repo"
+    else:
+        wt = f"/tmp/seedchk/det-{sid}"
+        shutil.rmtree(wt, ignore_errors=True)
+        os.makedirs("/tmp/seedchk", exist_ok=True)
+        sh(["git", "-C", "/repo", "worktree", "prune"])
+        r = sh(["git", "-C", "/repo", "worktree", "add", "-q", "--detach", wt, "HEAD"])
+        if r.returncode:
+            raise SystemExit(r.stderr)
+        target = wt
+        env["VERIF_REPO"] = wt
+    ap = sh(["git", "-C", target, "apply", os.path.join(d, "patch.diff")])
     if ap.returncode:
         raise SystemExit("patch does not apply: " + ap.stderr)
     out = {}
     try:
         for c in checks:
             t0 = time.time()
-            r = sh([os.path.join(VERIF, "check"), c, "--tier", tier], cwd=VERIF,
-                   env=dict(os.environ, VERIF_CACHE="1"))
+            r = sh([os.path.join(VERIF, "check"), c, "--tier", tier], cwd=VERIF, env=env)
             lines = [l for l in r.stdout.split("\n") if l.startswith("VIOLATION")]
             out[c] = {"exit": r.returncode, "violations": [l[:300] for l in lines[:6]],
                       "wall_s": round(time.time() - t0)}
             if r.returncode == 2:
                 out[c]["stderr"] = r.stderr[-400:]
     finally:
-        sh(["git", "-C", "/repo", "checkout", "--", "."])
+        if inplace:
+            sh(["git", "-C", "/repo", "checkout", "--", "."])
+        else:
+            sh(["git", "-C", "/repo", "worktree", "remove", "--force", wt])
+            shutil.rmtree(wt, ignore_errors=True)
     meta.setdefault("detected_by", {})
     for c, v in out.items():
         meta["detected_by"][f"{c}/{tier}"] = v
@@ -116,7 +136,10 @@ if __name__ == "__main__":
     elif cmd == "detect":
         tier = "quick"
         args = sys.argv[3:]
+        inplace = "--inplace" in args
+        if inplace:
+            args.remove("--inplace")
         if "--thorough" in args:
             args.remove("--thorough")
             tier = "thorough"
-        print(json.dumps(detect(sys.argv[2], args, tier), indent=1))
+        print(json.dumps(detect(sys.argv[2], args, tier, inplace), indent=1))
